@@ -1,4 +1,5 @@
 ENGINE_TEXTS = {
+    "cmd": "cmdsim: harness files in package main of the scratch copy run the real plotRun(), report(), encode(), attack() argument checks and flag.Value implementations in-process on real temporary files",
     "clock": "clocksim: discrete-event closed loop on a virtual clock around the real pacers, with injected stall histories; single-threaded",
     "stream": "streamsim: the real encoders, decoders, DecoderFor, NewRoundRobinDecoder and targeters over simulated files (Write-call boundaries recorded, crash = byte prefix, storage faults) and simulated readers (tape-chosen chunking, (n>0,EOF), zero-length reads, injected read errors); single-threaded, no clock",
     "attack": "attacksim: the real Attacker/hit/Stop code inside a testing/synctest bubble; a seeded controller releases one parked goroutine at a time (pacer, targeter, transport, body reader, consumers, Stop callers, armed statement breakpoints, mediated selects), advances the fake clock and injects faults; a reference model of the attack is checked in lock-step; plain and -race builds",
@@ -80,5 +81,14 @@ TEXTS["C20"] = {"engine": "attack", "design_ref": "§4 C20", "technique": "deter
 TEXTS["C18"] = {"engine": "attack", "design_ref": "§4 C18", "technique": "deterministic scheduling of concurrent dial workers over an in-memory DNS server and a recording dial function, breakpoints inside the DNSCaching/ConnectTo closures, fake time for cache refreshes; race build",
     "level_text": "exploration: every attempt goes to a currently resolved or mapped address, at most one per IP family and one per family present, all resolved addresses keep being used over 200 x |set| dials (the cached set never shrinks), mapped dials rotate evenly, unmapped addresses pass through, no data race. Three genuine defects found and repaired",
     "level_note": _ATK_NOTE}
+
+TEXTS.update({
+    "C17": {"engine": "cmd", "design_ref": "§4 C17", "technique": "arrival-order histories (permutations of completion order, split over several files and encodings) through the real plot command; complete sweep of the downsampling grid",
+            "level_text": "exploration: exactly one row per result at x = floor ms since its attack's first request / 1000 and y = latency ms in the column of its (attack, OK|ERROR) series, rows sorted by x; series above the threshold reduced to exactly threshold points that are points of the series and keep first and last; thresholds 1 and 2 rejected; lttb.Downsample checked for every (count <= 64, threshold) pair (exact count, subsequence, ends)",
+            "level_note": "trusted: the HTML/JS parsing in the harness, encoding/json; files are real regular files (faults only in content and order)"},
+    "C19": {"engine": "cmd", "design_ref": "§4 C19", "technique": "flag values pushed through the real flag.Value objects and then through the simulated system (closed-loop pacer run in virtual time; attack() argument check)",
+            "level_text": "exploration: N/D means exactly N hits per D in closed loop, 0 and infinity mean unlimited and demand -max-workers, printed rates parse back, malformed rates are rejected; header accumulation with case preserved, max-body notations, connect-to mapping, dns-ttl and resolver values as documented. One genuine defect (-rate=infinity ignored) found and repaired",
+            "level_note": "trusted: the table of documented notations in the harness (README, usage text)"},
+})
 
 NOT_APPLICABLE = {}
